@@ -28,6 +28,13 @@ fn mapped_method(rng: &mut Rng) -> MethodEntry {
     let a = 1 + g.rng.below(50) as u128;
     m.start = Some(a);
     m.end = Some(a + g.rng.below(4) as u128);
+    // a kept member whose line table is the identity: it still carries a line mapping
+    if g.rng.chance(1, 3) {
+        m.orig = m.obf.clone();
+        m.orig_class = None;
+        m.ostart = m.start;
+        m.oend = if m.start == m.end && g.rng.chance(1, 2) { None } else { m.end };
+    }
     m
 }
 
@@ -95,7 +102,12 @@ fn gen_file(rng: &mut Rng, case: u64, thorough: bool) -> MapAst {
                 2 => (0, 0),
                 _ => (b, b),
             };
-            items.push(Item::Class { orig: format!("com.example.K{o}"), obf: format!("k{k}") });
+            if rng.chance(1, 3) {
+                // a kept class: it maps onto itself
+                items.push(Item::Class { orig: format!("com.example.Keep{k}"), obf: format!("com.example.Keep{k}") });
+            } else {
+                items.push(Item::Class { orig: format!("com.example.K{o}"), obf: format!("k{k}") });
+            }
         }
         if rng.chance(1, 4) {
             items.push(Item::Noise(rng.pick(NOISE_CATALOGUE).to_string()));
@@ -191,6 +203,12 @@ pub fn run(ctx: &Ctx, rep: &mut Reporter) {
                 rep.violation(case_idx, "folds", "metadata answers change when asked again, in another order or on a clone", d);
             }
             rep.count("files", 1);
+            {
+                let mapped: Vec<&MethodEntry> = ast.items.iter().filter_map(|i| if let Item::Method(m) = i { m.usable().map(|_| m) } else { None }).collect();
+                if !mapped.is_empty() && mapped.iter().all(|m| m.orig == m.obf && m.ostart == m.start) {
+                    rep.count("files_whose_only_line_mappings_are_identity_mappings_of_kept_members", 1);
+                }
+            }
             if exp.class_count > 65_535 {
                 rep.count("files_with_more_than_65535_class_records", 1);
             }
